@@ -10,6 +10,7 @@ import (
 	"os"
 	"path/filepath"
 	"strings"
+	"sync"
 	"testing"
 	"time"
 
@@ -188,7 +189,8 @@ func runL1Script(script []c18Op) (trace string, bridges int) {
 				case 1:
 					m = ophosttypes.NewMsgUpdateChallenger(b.chal, b.id, nu)
 				case 2:
-					m = ophosttypes.NewMsgUpdateBatchInfo(b.prop, b.id, ophosttypes.BatchInfo{Submitter: nu, ChainType: ophosttypes.BatchInfo_CHAIN_TYPE_CELESTIA})
+					// chain types 2 (celestia), 1, and the undefined 0 and 7 (refused - with the same error everywhere)
+					m = ophosttypes.NewMsgUpdateBatchInfo(b.prop, b.id, ophosttypes.BatchInfo{Submitter: nu, ChainType: ophosttypes.BatchInfo_ChainType([]int32{2, 2, 1, 0, 7}[op.A%5])})
 				case 3:
 					m = ophosttypes.NewMsgUpdateMetadata(b.prop, b.id, []byte(op.S))
 				case 4:
@@ -419,6 +421,11 @@ func runL2Script(script []c18Op) (trace string, maxLeaving int, oracleUpdates in
 			emit(op, l2.Deliver(opchildtypes.NewMsgFinalizeTokenDeposit(exec.Str, users[0].Str, to, amount, seq, 7, bases[op.B%2], data)))
 		case "withdraw":
 			emit(op, l2.Deliver(opchildtypes.NewMsgInitiateTokenWithdrawal(users[op.A%4].Str, users[op.B%4].Str, coinOf(denoms[op.B%2], op.C%20+1))))
+		case "badinfo":
+			// bridge info whose batch chain type is undefined, sent by anybody: refused, with the same error everywhere
+			cfg := henv.DefaultBridgeConfig(exec.Str, exec.Str, time.Hour)
+			cfg.BatchInfo.ChainType = ophosttypes.BatchInfo_ChainType([]int32{0, 7, 9}[op.A%3])
+			emit(op, l2.Deliver(opchildtypes.NewMsgSetBridgeInfo(users[op.B%4].Str, opchildtypes.BridgeInfo{BridgeId: 1, BridgeAddr: "bridge-addr", L1ChainId: c15ChainID, L1ClientId: c15ClientID, BridgeConfig: cfg})))
 		case "hostvals":
 			// the light client of L1 is updated: the set of L1 validators the oracle checks against is replaced
 			// (one or all of them leave), known as of the next L1 height
@@ -526,7 +533,7 @@ func genL2Script(rt *rapid.T) []c18Op {
 	var s []c18Op
 	n := rapid.IntRange(15, 50).Draw(rt, "len")
 	for i := 0; i < n; i++ {
-		k := drawWeighted(rt, "op", []weighted{{"add", 5}, {"remove", 4}, {"block", 5}, {"deposit", 5}, {"withdraw", 3}, {"oracle", 3}, {"plan", 2}, {"params", 1}, {"hostvals", 1}, {"oracle-late", 3}})
+		k := drawWeighted(rt, "op", []weighted{{"add", 5}, {"remove", 4}, {"block", 5}, {"deposit", 5}, {"withdraw", 3}, {"oracle", 3}, {"plan", 2}, {"params", 1}, {"hostvals", 1}, {"oracle-late", 3}, {"badinfo", 1}})
 		op := c18Op{Kind: k, A: rapid.IntRange(0, 11).Draw(rt, "a"), B: rapid.IntRange(0, 11).Draw(rt, "b"), C: int64(rapid.IntRange(0, 1000).Draw(rt, "c"))}
 		if k == "oracle" && rapid.IntRange(0, 2).Draw(rt, "hold") == 0 {
 			op.S = "hold"
@@ -590,9 +597,29 @@ func TestC18Rapid(t *testing.T) {
 					run()
 					time.Local = saved
 				case 2:
+					// ... and the node serves store-free queries (identifier derivations) on other goroutines meanwhile
+					stop := make(chan struct{})
+					var wg sync.WaitGroup
+					for g := 0; g < 4; g++ {
+						wg.Add(1)
+						go func(g int) {
+							defer wg.Done()
+							for k := uint64(0); ; k++ {
+								select {
+								case <-stop:
+									return
+								default:
+									_ = ophosttypes.L2Denom(k%7+uint64(g), "uother-denom-of-another-length")
+									_ = ophosttypes.BridgeAddress(k % 5)
+								}
+							}
+						}(g)
+					}
 					done := make(chan struct{})
 					go func() { defer close(done); run() }()
 					<-done
+					close(stop)
+					wg.Wait()
 				default:
 					run()
 				}
